@@ -1,0 +1,30 @@
+//go:build verif
+
+package tcpassembly
+
+import (
+	"flag"
+	"os"
+)
+
+// tcpassembly and reassembly both register the command-line flags
+// assembly_memuse_log and assembly_debug_log, so a program that links both
+// panics at start-up ("flag redefined").  The verification harness must link
+// both.  In verif builds only: when the names are already taken, this package
+// registers its flags on a copy of the command line that lacks them.  The file
+// name sorts before the files that declare the flags, so this runs first.
+var _ = verifFreshFlagSet()
+
+func verifFreshFlagSet() bool {
+	if flag.Lookup("assembly_memuse_log") == nil && flag.Lookup("assembly_debug_log") == nil {
+		return true
+	}
+	fs := flag.NewFlagSet(os.Args[0], flag.ExitOnError)
+	flag.CommandLine.VisitAll(func(f *flag.Flag) {
+		if f.Name != "assembly_memuse_log" && f.Name != "assembly_debug_log" {
+			fs.Var(f.Value, f.Name, f.Usage)
+		}
+	})
+	flag.CommandLine = fs
+	return true
+}
